@@ -76,6 +76,19 @@ var servers = map[string]*server{
 	// near-coincidences of J's name: J's name is a prefix resp. a suffix of theirs
 	"N": mkServer("N", "j.test.evil"),
 	"M": mkServer("M", "evil-j.test"),
+	// J's name in another letter case: another server, with its own keys (Handshake!Ownership "casevar")
+	"K": mkServer("K", "J.TEST"),
+}
+
+// casePartner: the server whose name is this one's in another letter case (Handshake!CasePartner).
+func casePartner(cls string) *server {
+	switch cls {
+	case "J":
+		return servers["K"]
+	case "K":
+		return servers["J"]
+	}
+	panic("c15: server class " + cls + " has no case partner")
 }
 
 func serverClass(name spec.ServerName) string {
